@@ -1,6 +1,8 @@
 """Per-property claim texts for MANIFEST.json."""
-HOOK_COMMITS = []
+HOOK_COMMITS = ["949171d"]
 ENGINES = [
+    {"name": "viewmc", "path": "harness/src/bin/viewmc.rs", "serves_properties": ["C13"],
+     "kind_free_text": "exhaustive enumeration of nested cuts (depth<=3) x conversion paths x read-size compositions on every source kind, model = payload[range]"},
     {"name": "packmc", "path": "harness/src/bin/packmc.rs", "serves_properties": ["C10", "C11"],
      "kind_free_text": "exhaustive enumeration of packagings (creator modes, all concat orders, nested concat, partial concat, decoys, prefixes) and of unavailable-pack subsets x ways, full logical dump compared with the reference model"},
     {"name": "faultmc", "path": "harness/src/bin/faultmc.rs", "serves_properties": ["C04", "C05", "C06"],
@@ -12,6 +14,13 @@ ENGINES = [
 ]
 NOT_YET = {}
 CLAIMS = {
+    "C13": {
+        "engine": "viewmc c13 (release and debug builds)",
+        "technique": "bounded-exhaustive enumeration of view chains x read-size compositions on the real ByteRegion/ByteSlice/ByteStream, against a slice model",
+        "text": "For payloads of length 0..5 (thorough 0..6) placed at a non-zero offset of 8 source kinds: every chain of nested cuts to depth 3; per view: size(), get_slice of every sub-range (slice and converted region), 4 conversion paths to a stream x every composition of the length into read sizes, with size()/offset()/size_left() after every read and an over-long read at the end; one 5000-byte payload per source crosses the 4 KiB mmap and decoder-chunk boundaries. Debug and release builds.",
+        "design_ref": "DESIGN.md §4 C13",
+        "note": "Uses hook H1 (jubako::verif) for non-container sources; RandomParser read_* helpers are crate-private and not exercised.",
+    },
     "C10": {
         "engine": "packmc c10",
         "technique": "exhaustive enumeration of a finite configuration space (packagings x orders x prefixes) with a reference-model oracle",
